@@ -8,6 +8,7 @@ import (
 	"bufio"
 	"bytes"
 	"io"
+	"math"
 	"os"
 	"strconv"
 	"strings"
@@ -230,6 +231,7 @@ func (c *FITToCSVConv) copy(dest io.Writer, src io.Reader, maxCommaCount int) er
 
 	// Fill Padding Comma ','
 	scanner := bufio.NewScanner(src)
+	scanner.Buffer(nil, math.MaxInt) // a line holds a whole message: it can be longer than bufio.MaxScanTokenSize (64 KiB)
 
 	for scanner.Scan() {
 		b := scanner.Bytes()
@@ -264,7 +266,7 @@ func (c *FITToCSVConv) copy(dest io.Writer, src io.Reader, maxCommaCount int) er
 		}
 	}
 
-	return nil
+	return scanner.Err()
 }
 
 func (c *FITToCSVConv) printHeader() {
